@@ -82,6 +82,10 @@ def run_cfg(c, text):
     out = io.StringIO()
     fa.anonymize_io(io.StringIO(text, newline=""), out)
     return out.getvalue()
+def run_obj(fa, text):
+    out = io.StringIO()
+    fa.anonymize_io(io.StringIO(text, newline=""), out)
+    return out.getvalue()
 def do_event(e):
     from netconan.anonymize_files import FileAnonymizer
     from netconan import ip_anonymization, sensitive_item_removal
@@ -115,6 +119,14 @@ EVENTS = [
     ["ip", "saltForTest", ["10.0.0.0/8"]],
     ["words", ["seat", "keep"]],
     ["rmi", "password PlyRouter"],
+    # neighbours of the target configuration: same as the target except for one option
+    ["fa", {"anon_pwd": True, "anon_ip": True, "salt": "saltForTest", "sensitive_words": ["sea", "seattle", "seat"],
+            "as_numbers": ["65001", "12"], "reserved_words": ["seattle-core", "seat12"]}, TEXT],
+    ["fa", {"anon_pwd": True, "anon_ip": True, "salt": "neighbourSalt", "sensitive_words": ["sea", "seattle", "seat"],
+            "as_numbers": ["65001", "12"], "reserved_words": ["KeepMe"]}, TEXT],
+    ["fa", {"anon_pwd": True, "anon_ip": True, "salt": "saltForTest", "sensitive_words": ["sea", "seattle", "seat"],
+            "as_numbers": ["65001", "12"], "reserved_words": ["KeepMe"], "preserve_suffix_v4": 0,
+            "preserve_suffix_v6": 24, "preserve_networks": ["10.0.0.0/8"]}, TEXT],
 ]
 
 
@@ -263,24 +275,31 @@ class History(Part):
         ns = _ns()
         if case["mode"] == "fresh":
             code = LIB + "\nimport sys\nWORDS=%r\nASNS=%r\nlogging.disable(logging.CRITICAL)\njob=json.loads(sys.stdin.read())\n" \
-                "for e in job['events']:\n    do_event(e)\nprint(json.dumps(run_cfg(job['target'], job['text'])))\n" % (WORDS, ASNS)
+                "pre = build(job['target']) if job.get('prebuilt') else None\n" \
+                "for e in job['events']:\n    do_event(e)\n" \
+                "print(json.dumps(run_obj(pre, job['text']) if pre is not None else run_cfg(job['target'], job['text'])))\n" % (WORDS, ASNS)
             base = seams.run_py(code, stdin=json.dumps({"events": [], "target": TARGET, "text": TEXT}))
             want = json.loads(base.stdout.strip().splitlines()[-1])
             for h in case["hists"]:
+              for prebuilt in (False, True):
+                if prebuilt and not h:
+                    continue
                 cp = seams.run_py(code, stdin=json.dumps({"events": [EVENTS[i] for i in h], "target": TARGET,
-                                                          "text": TEXT}))
+                                                          "text": TEXT, "prebuilt": prebuilt}))
                 res.evals += 1
                 res.traces += 1
                 if cp.returncode != 0:
                     res.violation("process-failed", "history %r: %s" % (h, cp.stderr[-500:]), case)
                     continue
                 got = json.loads(cp.stdout.strip().splitlines()[-1])
-                res.nt(("fresh", tuple(h)))
+                res.nt(("fresh", tuple(h), prebuilt))
                 res.out(got)
                 if got != want:
                     li = [i for i, (a, b) in enumerate(zip(got.split("\n"), want.split("\n"))) if a != b][0]
-                    res.violation("output-depends-on-earlier-anonymizers|event=%s" % (h[-1] if h else "-"),
-                                  "fresh interpreter, prior events %r: line %r -> %r, pristine process gives %r" % (
+                    res.violation("output-depends-on-%s-anonymizers|event=%s" % (
+                        "other-live" if prebuilt else "earlier", h[-1] if h else "-"),
+                                  "fresh interpreter, %s %r: line %r -> %r, pristine process gives %r" % (
+                                      "target built first, then events" if prebuilt else "prior events",
                                       [EVENTS[i][:2] for i in h], TEXT_LINES[li], got.split("\n")[li],
                                       want.split("\n")[li]), {"mode": "fresh", "hists": [h]})
             res.samples.append({"fresh_interpreter_histories": case["hists"][:3]})
@@ -331,6 +350,24 @@ class History(Part):
                                   "after prior events %r: line %r -> %r, pristine process gives %r" % (
                                       [EVENTS[i][:2] for i in nh], TEXT_LINES[li], got.split("\n")[li],
                                       want.split("\n")[li]), {"mode": "fresh", "hists": [list(nh)]})
+                # the same history with the target BUILT FIRST and used afterwards
+                seams.apply_state(pristine)
+                try:
+                    with seams.capture_logs():
+                        pre = ns["build"](TARGET)
+                        for i in nh:
+                            ns["do_event"](EVENTS[i])
+                        got2 = ns["run_obj"](pre, TEXT)
+                    res.evals += 1
+                    if got2 != want:
+                        li = [i for i, (a, b) in enumerate(zip(got2.split("\n"), want.split("\n"))) if a != b][0]
+                        res.violation("output-depends-on-other-live-anonymizers|event=%d" % ei,
+                                      "target built first, then %r, then used: line %r -> %r, pristine gives %r" % (
+                                          [EVENTS[i][:2] for i in nh], TEXT_LINES[li], got2.split("\n")[li],
+                                          want.split("\n")[li]), {"mode": "fresh", "hists": [list(nh)]})
+                except Exception as e:
+                    res.violation("event-raised:" + type(e).__name__, "prebuilt history %r: %r" % (nh, e),
+                                  {"mode": "inprocess"})
                 seams.apply_state(nst)
                 frontier.append((nh, nst))
         seams.apply_state(pristine)
